@@ -369,8 +369,14 @@ impl Circle2 {
         }
 
         let r_sum = self.ball.radius + other.ball.radius;
+        let r_diff = (self.ball.radius - other.ball.radius).abs();
         if d > r_sum {
             // Circles are too far apart
+            return result;
+        }
+
+        if d < r_diff {
+            // One circle lies entirely inside the other, their perimeters never meet
             return result;
         }
 
@@ -378,8 +384,8 @@ impl Circle2 {
         let a = (self.ball.radius.powi(2) - other.ball.radius.powi(2) + d.powi(2)) / (2.0 * d);
         let p2 = self.center + (v * a);
 
-        if (d - r_sum).abs() < TOL {
-            // Circles are touching
+        if (d - r_sum).abs() < TOL || (d - r_diff).abs() < TOL {
+            // Circles are touching, either from the outside or from the inside
             result.push(p2);
             return result;
         }
